@@ -9,7 +9,7 @@
   `C03_partial` proves the statement for every history in which no delete covers a point held
   by the in-flight snapshot store (`safeFrom`, decidable on the history).
 -/
-import Influx.Lemmas.EngineC03
+import Influx.Lemmas.EngineC02
 
 namespace Influx.Props.C03
 open Influx.Model.Engine Influx.Spec.C03
@@ -23,9 +23,13 @@ def safeFrom (s : State) : List Op → Bool
      | .delete ss lo hi => decide (SnapClear s ss lo hi)
      | _ => true) && safeFrom (step s op).1 ops
 
-/-- operations covered by the theorems of this module (restarts: see Props.C02) -/
+/-- operations covered by the theorems of this module: everything C03 speaks about, including
+    restarts (a crash at any step boundary, also inside a snapshot commit or inside
+    FileStore.replace of a compaction, followed by Engine.Open).  Crashes that tear the
+    operation in flight are C02's. -/
 def inScope' : Op → Bool
-  | .write _ | .read .. | .delete .. | .snapBegin | .snapStep | .snapTo _ | .compact .. | .files => true
+  | .write _ | .read .. | .delete .. | .snapBegin | .snapStep | .snapTo _ | .compact .. | .files
+  | .crash false | .compactCrash .. => true
   | _ => false
 
 /-- the events the model acknowledges for one op in state `s` -/
@@ -44,63 +48,93 @@ theorem C03_delete_exact {s : State} {ss : List Nat} {lo hi : Int} (hc : SnapCle
   · simp [hb] at hok
   · simp only [hb, Bool.false_eq_true, if_false]; exact abs_stepDelete hc k t
 
-theorem step_refines {s : State} {h : List Ev} (hinv : Inv s) (ha : AbsIs3 s h) (op : Op)
+theorem step_refines {s : State} {h : List Ev} (hg : Good s) (ha : AbsIs3 s h) (op : Op)
     (hop : inScope' op = true) (hs : safeFrom s [op] = true) :
-    Inv (step s op).1 ∧ AbsIs3 (step s op).1 (h ++ evsOf s op) := by
-  cases op <;> simp only [inScope', Bool.false_eq_true] at hop
-  · -- write
-    refine ⟨inv_stepWrite hinv _, fun k t => ?_⟩
+    Good (step s op).1 ∧ AbsIs3 (step s op).1 (h ++ evsOf s op) := by
+  cases op with
+  | write es =>
+    refine ⟨good_write hg es, fun k t => ?_⟩
     simp only [step, evsOf, abs_stepWrite, cell_puts, ha k t]
-  · -- delete
-    rename_i ss lo hi
+  | delete ss lo hi =>
     simp only [safeFrom, Bool.and_true, decide_eq_true_eq] at hs
     simp only [evsOf]
-    simp only [step]
     by_cases hb : commitLocked s.phase = true
-    · simp only [hb, if_true, reduceCtorEq, if_false, List.append_nil]; exact ⟨inv_touch hinv, ha⟩
-    · simp only [hb, Bool.false_eq_true, if_false, if_true]
-      have hp : s.phase ≠ .replaced := by
-        intro h'; rw [h'] at hb; exact hb rfl
-      exact ⟨inv_stepDelete hinv _ _ _ hp, fun k t => by rw [abs_stepDelete hs, cell_del, ha]⟩
-  · exact ⟨inv_stepSnapBegin hinv, fun k t => by
-      simp only [evsOf, List.append_nil]; rw [← ha k t]; exact abs_stepSnapBegin hinv k t⟩
-  · exact ⟨inv_touch (inv_stepSnapStep hinv), fun k t => by
-      simp only [evsOf, List.append_nil]; rw [← ha k t]; exact abs_stepSnapStep hinv k t⟩
-  · exact ⟨inv_touch (inv_stepSnapTo hinv _), fun k t => by
-      simp only [evsOf, List.append_nil]; rw [← ha k t]; exact abs_stepSnapTo hinv _ k t⟩
-  · rename_i i j
-    simp only [step, evsOf, List.append_nil]
-    by_cases hv : validGroup s.files i j
-    · simp only [hv, if_true]
-      exact ⟨inv_compact hinv i j (validGroup_le hv), fun k t => by
+    · have hstep : step s (.delete ss lo hi) = (s.touch, .blocked) := by simp [step, hb]
+      rw [hstep]
+      simp only [reduceCtorEq, if_false, List.append_nil]
+      exact ⟨good_touch hg, ha⟩
+    · have hb' : commitLocked s.phase = false := by simpa using hb
+      have hstep : step s (.delete ss lo hi) = (stepDelete s ss lo hi, .ok) := by simp [step, hb']
+      rw [hstep]
+      simp only [if_true]
+      exact ⟨good_delete hg hs hb', fun k t => by rw [abs_stepDelete hs, cell_del, ha]⟩
+  | snapBegin =>
+    exact ⟨good_snapBegin hg, fun k t => by
+      simp only [evsOf, List.append_nil]; rw [← ha k t]; exact abs_stepSnapBegin hg.inv k t⟩
+  | snapStep =>
+    exact ⟨good_snapStep hg, fun k t => by
+      simp only [evsOf, List.append_nil]; rw [← ha k t]; exact abs_stepSnapStep hg.inv k t⟩
+  | snapTo p =>
+    exact ⟨good_snapTo hg p, fun k t => by
+      simp only [evsOf, List.append_nil]; rw [← ha k t]; exact abs_stepSnapTo hg.inv p k t⟩
+  | compact i j =>
+    simp only [evsOf, List.append_nil]
+    by_cases hv : validGroup s.files i j = true
+    · have hstep : (step s (.compact i j)).1 =
+          ({ s with files := compactFiles s.files i j, lastRec := false } : State) := by simp [step, hv]
+      rw [hstep]
+      exact ⟨good_compact hg hv, fun k t => by
         rw [← ha k t]; exact abs_compact s i j (validGroup_le hv) k t⟩
-    · simp only [hv, Bool.false_eq_true, if_false]; exact ⟨inv_touch hinv, ha⟩
-  · exact ⟨inv_touch hinv, by simpa [evsOf, step] using ha⟩
-  · exact ⟨inv_touch hinv, by simpa [evsOf, step] using ha⟩
+    · have hstep : (step s (.compact i j)).1 = s.touch := by simp [step, hv]
+      rw [hstep]; exact ⟨good_touch hg, ha⟩
+  | compactSet idxs => simp [inScope'] at hop
+  | read k lo hi asc => exact ⟨good_touch hg, fun k t => by simpa [evsOf, step] using ha k t⟩
+  | files => exact ⟨good_touch hg, fun k t => by simpa [evsOf, step] using ha k t⟩
+  | crash tear =>
+    cases tear with
+    | true => simp [inScope'] at hop
+    | false =>
+      refine ⟨good_stepCrash hg.wal false, fun k t => ?_⟩
+      simp only [evsOf, List.append_nil]
+      rw [← ha k t]
+      have : (step s (.crash false)).1 = openWith s s.files s.wal := by simp [step, stepCrash, State.wal]
+      rw [this]; exact abs_openWith_same hg.inv hg.wal s.files (fun _ _ => rfl) k t
+  | compactCrash i j pt n =>
+    simp only [evsOf, List.append_nil]
+    by_cases hv : validGroup s.files i j = true
+    · have hstep : (step s (.compactCrash i j pt n)).1 =
+          openWith s (compactCrashFiles s.files i j pt n) s.wal := by simp [step, hv]
+      rw [hstep]
+      exact ⟨good_deleteCrash hg _, fun k t => by
+        rw [← ha k t]
+        exact abs_openWith_same hg.inv hg.wal _ (get_compactCrashFiles _ _ _ (validGroup_le hv) _ _) k t⟩
+    · have hstep : (step s (.compactCrash i j pt n)).1 = s.touch := by simp [step, hv]
+      rw [hstep]; exact ⟨good_touch hg, ha⟩
+  | deleteCrash ss lo hi => simp [inScope'] at hop
 
 theorem safeFrom_cons {s : State} {op : Op} {ops : List Op} (h : safeFrom s (op :: ops) = true) :
     safeFrom s [op] = true ∧ safeFrom (step s op).1 ops = true := by
   simp only [safeFrom, Bool.and_eq_true, Bool.and_true] at h ⊢
   exact h
 
-theorem checkFrom_runFrom (ops : List Op) : ∀ (s : State) (h : List Ev) (w : Window), Inv s → AbsIs3 s h →
+theorem checkFrom_runFrom (ops : List Op) : ∀ (s : State) (h : List Ev) (w : Window), Good s → AbsIs3 s h →
     (∀ op ∈ ops, inScope' op = true) → safeFrom s ops = true →
     checkFrom h w (runFrom s ops).2 = none := by
   induction ops with
   | nil => intro s h w _ _ _ _; rfl
   | cons op ops ih =>
-    intro s h w hi ha hs hsafe
+    intro s h w hg ha hs hsafe
     have hop := hs op List.mem_cons_self
     have hsf := safeFrom_cons hsafe
-    have h1 := step_refines hi ha op hop hsf.1
+    have h1 := step_refines hg ha op hop hsf.1
     have hrest := fun h' w' (hw : h' = h ++ evsOf s op) =>
       ih (step s op).1 h' w' h1.1 (hw ▸ h1.2) (fun o ho => hs o (List.mem_cons_of_mem _ ho)) hsf.2
     simp only [runFrom]
-    cases op <;> simp only [inScope', Bool.false_eq_true] at hop
-    · simp only [checkFrom, step, if_true]
+    cases op with
+    | write es =>
+      simp only [checkFrom, step, if_true]
       exact hrest _ _ (by simp [evsOf])
-    · -- delete
-      rename_i ss lo hi
+    | delete ss lo hi =>
       simp only [checkFrom]
       by_cases hok : (step s (.delete ss lo hi)).2 = .ok
       · simp only [hok, if_true]
@@ -112,38 +146,47 @@ theorem checkFrom_runFrom (ops : List Op) : ∀ (s : State) (h : List Ev) (w : W
           · simp [hbl] at hok
         simp only [hb, reduceCtorEq, if_false, if_true]
         exact hrest _ _ (by simp [evsOf, hb])
-    · simp only [checkFrom]
+    | snapBegin =>
+      simp only [checkFrom]
       split <;> exact hrest _ _ (by simp [evsOf])
-    · simp only [checkFrom, Spec.C03.inScope, if_true]; exact hrest _ _ (by simp [evsOf])
-    · simp only [checkFrom]
-      split <;> exact hrest _ _ (by simp [evsOf])
-    · simp only [checkFrom, Spec.C03.inScope, if_true]; exact hrest _ _ (by simp [evsOf])
-    · rename_i k lo hi asc
-      simp only [checkFrom, step, rowsOK3_read ha, if_true]
+    | snapStep => simp only [checkFrom, Spec.C03.inScope, if_true]; exact hrest _ _ (by simp [evsOf])
+    | snapTo p => simp only [checkFrom]; exact hrest _ _ (by simp [evsOf])
+    | compact i j => simp only [checkFrom, Spec.C03.inScope, if_true]; exact hrest _ _ (by simp [evsOf])
+    | compactSet idxs => simp [inScope'] at hop
+    | read k lo hi asc =>
+      simp only [checkFrom, step, touch_read, rowsOK3_read ha, if_true]
       exact hrest _ _ (by simp [evsOf])
-    · simp only [checkFrom, Spec.C03.inScope, if_true]; exact hrest _ _ (by simp [evsOf])
+    | files => simp only [checkFrom, Spec.C03.inScope, if_true]; exact hrest _ _ (by simp [evsOf])
+    | crash tear =>
+      cases tear with
+      | true => simp [inScope'] at hop
+      | false => simp only [checkFrom]; exact hrest _ _ (by simp [evsOf])
+    | compactCrash i j pt n => simp only [checkFrom]; exact hrest _ _ (by simp [evsOf])
+    | deleteCrash ss lo hi => simp [inScope'] at hop
 
 /-- **C03, partial** — for every history of writes, deletes, snapshot sub-steps, compactions of
-    adjacent files and reads in which no delete covers a point held by the in-flight snapshot
-    store, the statement holds on the model's trace: no deleted point is ever returned again
-    (through later snapshots and compactions) and every other point is unaffected.
+    adjacent files, RESTARTS (crash at any step boundary — also between the sub-steps of a snapshot
+    commit and inside FileStore.replace of a compaction — followed by Engine.Open) and reads in
+    which no delete covers a point held by the in-flight snapshot store, the statement holds on
+    the model's trace: no deleted point is ever returned again (through later snapshots,
+    compactions and restarts) and every other point is unaffected.
     What is missing for the full statement: exactly the excluded histories (C03_full_fails). -/
 theorem C03_partial (ops : List Op) (hs : ∀ op ∈ ops, inScope' op = true)
     (hsafe : safeFrom init ops = true) : holdsOn (trace ops) = true := by
   simp only [holdsOn, check, trace,
-    checkFrom_runFrom ops init [] {} inv_init (fun _ _ => rfl) hs hsafe]
+    checkFrom_runFrom ops init [] {} good_init (fun _ _ => rfl) hs hsafe]
   rfl
 
 /-- the state reached is exactly the abstract cell map of the acknowledged events -/
-theorem run_refines (ops : List Op) : ∀ (s : State) (h : List Ev), Inv s → AbsIs3 s h →
+theorem run_refines (ops : List Op) : ∀ (s : State) (h : List Ev), Good s → AbsIs3 s h →
     (∀ op ∈ ops, inScope' op = true) → safeFrom s ops = true →
-    ∃ h', Inv (runFrom s ops).1 ∧ AbsIs3 (runFrom s ops).1 h' := by
+    ∃ h', Good (runFrom s ops).1 ∧ AbsIs3 (runFrom s ops).1 h' := by
   induction ops with
-  | nil => intro s h hi ha _ _; exact ⟨h, hi, ha⟩
+  | nil => intro s h hg ha _ _; exact ⟨h, hg, ha⟩
   | cons op ops ih =>
-    intro s h hi ha hs hsafe
+    intro s h hg ha hs hsafe
     have hsf := safeFrom_cons hsafe
-    have h1 := step_refines hi ha op (hs op List.mem_cons_self) hsf.1
+    have h1 := step_refines hg ha op (hs op List.mem_cons_self) hsf.1
     exact ih _ _ h1.1 h1.2 (fun o ho => hs o (List.mem_cons_of_mem _ ho)) hsf.2
 
 /-- the F1 history: write, begin a snapshot, delete the point, let the snapshot finish, read -/
@@ -168,7 +211,7 @@ example : safeFrom init f1Ops = false := by decide
 def okOps : List Op :=
   [.write [⟨⟨0,0⟩,1,1⟩, ⟨⟨0,0⟩,2,2⟩, ⟨⟨1,0⟩,2,7⟩], .snapBegin, .snapTo .idle, .write [⟨⟨0,0⟩,3,3⟩],
    .delete [0] 2 3, .read ⟨0,0⟩ 0 10 true, .snapBegin, .write [⟨⟨0,1⟩,5,5⟩], .delete [0] 5 6, .snapTo .idle,
-   .compact 0 0, .write [⟨⟨0,0⟩,2,9⟩], .read ⟨0,0⟩ 0 10 false, .read ⟨1,0⟩ 0 10 true]
+   .compact 0 0, .write [⟨⟨0,0⟩,2,9⟩], .read ⟨0,0⟩ 0 10 false, .crash false, .read ⟨1,0⟩ 0 10 true]
 
 example : (∀ op ∈ okOps, inScope' op = true) ∧ safeFrom init okOps = true ∧
     (trace okOps).getLast? = some (.read ⟨1,0⟩ 0 10 true, .rows [(2, 7)]) ∧
